@@ -291,6 +291,51 @@ def facts():
                 if m:
                     uses.append("%s::%s: %s" % (rel.replace("src/", ""), name, re.sub(r"\s+", " ", ln.strip())[:90]))
     f["type_syntax_uses"] = sorted(set(uses))
+    # ---- C05: the parser's call graph: every recursive cycle must pass through a guarded entry point ----------
+    par_src = dict(inter).get("src/parser.rs", "")
+    pfuns = {}
+    for n, b, _ in functions(par_src):
+        pfuns.setdefault(n, "")
+        pfuns[n] += b
+    guarded = sorted(n for n, b in pfuns.items()
+                     if re.search(r"self\.nested\(\s*(?:Self::|\|\w+\|\s*\w+\.)%s_unguarded" % re.escape(n), b))
+    # token-consuming functions only: AST walkers (expression_to_pattern, check_duplicate_params) recurse on
+    # trees the guarded parser has already bounded
+    pfuns = {n: b for n, b in pfuns.items() if n.startswith(("parse_", "try_parse"))}
+    names = sorted(pfuns)
+    idx = {n: i for i, n in enumerate(names)}
+    edges = set()
+    for n, b in pfuns.items():
+        for m in re.findall(r"\b(?:self\s*\.\s*|Self::)([a-z_][a-z0-9_]*)\s*(?:\(|\))", b) + re.findall(r"Self::([a-z_][a-z0-9_]*)\b", b):
+            if m in idx and m != n + "_unguarded" or (m in idx and m == n + "_unguarded"):
+                edges.add((n, m))
+    # rank: longest path in the graph without the guarded nodes (must be acyclic there)
+    un = [n for n in names if n not in guarded]
+    succ = {n: sorted(m for (a, m) in edges if a == n and m not in guarded) for n in un}
+    rank, state, cyc = {}, {}, []
+
+    def visit(n, stack):
+        if state.get(n) == 2:
+            return rank[n]
+        if state.get(n) == 1:
+            cyc.append(" -> ".join(stack[stack.index(n):] + [n]))
+            return 0
+        state[n] = 1
+        r = 0
+        for m in succ[n]:
+            r = max(r, 1 + visit(m, stack + [n]))
+        state[n] = 2
+        rank[n] = r
+        return r
+    import sys as _sys
+    _sys.setrecursionlimit(10000)
+    for n in un:
+        visit(n, [])
+    f["parser_guarded"] = guarded
+    f["parser_unguarded_cycles"] = sorted(set(cyc))
+    m_ = re.search(r"const\s+MAX_NESTING\s*:\s*usize\s*=\s*([0-9_]+)", par_src)
+    f["parser_limits"] = ["MAX_NESTING=%s" % (m_.group(1) if m_ else "?"), "functions=%d" % len(names), "max_rank=%d" % (max(rank.values()) if rank else 0)]
+    f["_parser_graph"] = (names, guarded, sorted(edges), rank)
     # ---- C01: the Pratt table -----------------------------------------------------------
     par = dict(inter).get("src/parser.rs", "")
     body = next((b for n, b, _ in functions(par) if n == "current_binary_op"), "")
@@ -331,6 +376,7 @@ GROUPS = {
     "C13": ["constants"],
     "C17": ["ffi_exports"],
     "C03": ["type_syntax_uses"],
+    "C05": ["parser_guarded", "parser_unguarded_cycles", "parser_limits"],
     "C19": ["prologue_eval", "prologue_prepare", "prologue_resume", "capi_entry_calls"],
 }
 
@@ -338,6 +384,14 @@ GROUPS = {
 def render(group, f):
     lines = ["(* GENERATED by tools/translate.py from %s -- do not edit *)" % REPO,
              "From Coq Require Import List String.", "Import ListNotations.", "Local Open Scope string_scope.", ""]
+    if group == "C05":
+        names, guarded, edges, rank = f["_parser_graph"]
+        idx = {n: i for i, n in enumerate(names)}
+        lines.append("(* the call graph of src/parser.rs: functions are numbered in alphabetical order *)")
+        lines.append("Definition parser_function_count : nat := %d." % len(names))
+        lines.append("Definition parser_guarded_ids : list nat := [%s]." % "; ".join(str(idx[g]) for g in guarded))
+        lines.append("Definition parser_edges : list (nat * nat) := [%s]." % "; ".join("(%d, %d)" % (idx[a], idx[b]) for a, b in edges))
+        lines.append("Definition parser_ranks : list nat := [%s]." % "; ".join(str(rank.get(n, 0)) for n in names))
     for k in GROUPS[group]:
         if k.startswith("flow_"):
             lines.append(coq_flow(k, f[k]))
@@ -360,7 +414,7 @@ def main():
     mode = sys.argv[1] if len(sys.argv) > 1 else "generate"
     if mode == "show":
         import json
-        print(json.dumps(f, indent=1))
+        print(json.dumps({k: v for k, v in f.items() if not k.startswith("_")}, indent=1))
         return
     for g in GROUPS:
         text = render(g, f)
